@@ -383,6 +383,13 @@ func (l *Link) OpenGate() {
 }
 
 // Queued returns the number of undelivered messages on the link.
+// SetSendErr installs SendErr under the link's lock (for use while traffic is flowing).
+func (l *Link) SetSendErr(f func(n int, m gsmsg.GraphSyncMessage) error) {
+	l.mu.Lock()
+	l.SendErr = f
+	l.mu.Unlock()
+}
+
 func (l *Link) Queued() int {
 	l.mu.Lock()
 	defer l.mu.Unlock()
